@@ -181,7 +181,7 @@ def theorems_in(path):
         m = re.match(r"\s*end\s+(\S+)", line)
         if m and ns and ns[-1] == m.group(1):
             ns.pop()
-        m = re.match(r"\s*(?:protected\s+)?theorem\s+(\S+)", line)
+        m = re.match(r"\s*(?:protected\s+)?theorem\s+([A-Za-z_][^\s$]*)", line)
         if m:
             out.append((".".join(ns + [m.group(1)]), i))
     return out
